@@ -1,4 +1,58 @@
-import EudoxiaModel.Proofs.Reach
+import EudoxiaModel.Proofs.Oom
+/-! # C11 — pool-level OOM kills take highest scorers first and stop once usage fits
+
+`cands` are the containers the pool-level step may choose from (not finished in this tick, using memory,
+not already killed for exceeding their own limit); they are killed in the order `sortDesc cands`
+(descending usage²/allocation, stable) while the pool's usage exceeds its capacity. -/
 namespace Eudoxia.C11
-theorem placeholder : True := trivial
+open Eudoxia
+
+/-- the kill order is the candidates sorted by descending score: a permutation of them, pairwise ordered
+(allocations are positive — `Assignment` refuses anything else) -/
+theorem kill_order_is_descending_score (cands : List Ctr) (hpos : ∀ c ∈ cands, 0 < c.ram) :
+    (sortDesc cands).Perm cands ∧ (sortDesc cands).Pairwise (fun a b => scoreGe a b = true) :=
+  ⟨SortP.sortDesc_perm scoreGe cands,
+   SortP.sortDesc_sorted_on scoreGe (fun c => 0 < c.ram) scoreGe_total (fun a b c hb => scoreGe_trans a b c hb) cands hpos⟩
+
+/-- **no container is killed while one with a strictly higher score survives**: every victim scores at least as high as every
+candidate that survives the tick -/
+theorem no_higher_scorer_survives (cands : List Ctr) (hpos : ∀ c ∈ cands, 0 < c.ram) (capR : Nat) (usage : Int) (v s : Ctr)
+    (hv : v ∈ (sortDesc cands).take (nVictims capR usage (sortDesc cands)))
+    (hs : s ∈ (sortDesc cands).drop (nVictims capR usage (sortDesc cands))) : scoreGe v s = true := by
+  have hsorted := (kill_order_is_descending_score cands hpos).2
+  rw [← List.take_append_drop (nVictims capR usage (sortDesc cands)) (sortDesc cands)] at hsorted
+  exact (List.pairwise_append.mp hsorted).2.2 v hv s hs
+
+/-- **no kill happens that was not needed**: before each pool-level kill the usage exceeds the capacity -/
+theorem every_kill_was_needed (capR : Nat) (order : List Ctr) (usage : Int) (j : Nat) (h : j < nVictims capR usage order) :
+    usage - memSum (order.take j) > capR := kills_are_needed capR order usage j h
+
+/-- **killing stops as soon as the remaining usage fits into the pool** (or nobody is left to kill) -/
+theorem killing_stops_when_usage_fits (capR : Nat) (order : List Ctr) (usage : Int) :
+    nVictims capR usage order = order.length ∨ usage - memSum (order.take (nVictims capR usage order)) ≤ capR :=
+  stops_once_usage_fits capR order usage
+
+/-- the executable killer does exactly that: it marks as killed the first `nVictims` containers of the order it is given,
+and lowers the pool's usage counter by their memory -/
+theorem killer_kills_exactly_the_prefix (capR : Nat) (order : List Ctr) (w : Store) (act : List Ctr) (usage : Int)
+    (w' : Store) (act' : List Ctr) (usage' : Int) (h : killVictims w capR act usage order = .ok (w', act', usage')) :
+    usage' = usage - memSum (order.take (nVictims capR usage order)) ∧
+    ∀ u, (findCtr act u.cid).isSome →
+      killedIn act' u = (killedIn act u || ((order.take (nVictims capR usage order)).map (·.cid)).contains u.cid) :=
+  ⟨killVictims_usage capR order w act usage w' act' usage' h, killVictims_marks capR order w act usage w' act' usage' h⟩
+
+/-- **containers that finished in this tick or use no memory are never chosen** -/
+theorem finished_or_idle_never_chosen (act : List Ctr) (v : Ctr) (hv : v ∈ sortDesc (oomCandidates act)) :
+    v.completed = false ∧ 0 < v.mem := by
+  have := (List.mem_filter.mp (mem_sortDesc hv)).2
+  simpa using this
+
+/-- non-vacuity: three containers on a pool of capacity 100 using 60+50+30: the highest scorer alone is killed -/
+example :
+    let a : Ctr := { cid := 0, ops := [0], cpu := 1, ram := 100, mem := 60, pos := { ops := [] } }
+    let b : Ctr := { cid := 1, ops := [1], cpu := 1, ram := 50, mem := 50, pos := { ops := [] } }
+    let c : Ctr := { cid := 2, ops := [2], cpu := 1, ram := 200, mem := 30, pos := { ops := [] } }
+    (sortDesc (oomCandidates [a, b, c])).map (·.cid) = [1, 0, 2] ∧ nVictims 100 140 (sortDesc (oomCandidates [a, b, c])) = 1 := by
+  decide
+
 end Eudoxia.C11
